@@ -339,3 +339,43 @@ def r5(ctx, R):
     if not a or "self.data.keys()" not in norm(a[0]) or "get_nodes_with" not in " ".join(
             norm(x) for x in walk_local(cs_.node) if isinstance(x, ast.Assign)):
         R.bad(cs_, cs_.node, "self-check no longer compares data keys with graph nodes", stmt="assert")
+
+
+VALUE_READERS = {
+    "NonThreadedExecutor.eval_node": "the hit path: the edge to the caller is recorded right after the read",
+    "get_node_repr": "formats an error message",
+}
+
+
+@rule("C08.R6", "C08", "WMC", "a held value is read by key only on the executor's hit path", min_instances=2,
+      also=("C02", "C06"))
+def r6(ctx, R):
+    """In modelx.core, `<cells>.data[<key>]` and `<cells>.data.get(<key>)` are read only in
+    NonThreadedExecutor.eval_node (which records the dependency edge for the caller) and in
+    get_node_repr.  Any other keyed read hands a held value to its caller without an edge:
+    a formula that obtained the value that way is not invalidated when the value changes."""
+    n = 0
+    for f in ctx.repo.all_funcs(modules=["modelx.core"]):
+        for x in walk_local(f.node):
+            hit = None
+            if isinstance(x, ast.Subscript) and isinstance(x.ctx, ast.Load):
+                base = q.origin(f, x.value)
+                if isinstance(base, ast.Attribute) and base.attr == "data" and not isinstance(x.slice, ast.Slice):
+                    hit = x
+            elif isinstance(x, ast.Call) and isinstance(x.func, ast.Attribute) and x.func.attr in ("get", "pop", "setdefault"):
+                base = q.origin(f, x.func.value)
+                if isinstance(base, ast.Attribute) and base.attr == "data":
+                    hit = x
+            if hit is None:
+                continue
+            # only cells value stores: the receiver is a cells implementation (self in CellsImpl, or node[OBJ]/cells/obj)
+            owner = f.cls.name if f.cls is not None else None
+            recv = norm(base.value)
+            if owner is not None and recv == "self" and not any(c.name == "CellsImpl" for c in f.cls.mro):
+                continue
+            n += 1
+            R.inst("keyed read of held values in %s: `%s`" % (f.short, norm(hit)[:50]))
+            if f.short not in VALUE_READERS:
+                R.bad(f, hit, "a held value is read by key outside the executor's hit path: the caller gets the value "
+                              "without a dependency edge, so it is not invalidated when the value changes")
+    R.need(n >= 2, "expected >=2 keyed reads of held values, found %d" % n)
